@@ -1126,5 +1126,9 @@ func (p *Parser) requireInt() (int64, error) {
 		return 0, err
 	}
 	val, err := p.Prev().Val()
-	return val.(int64), err
+	if err != nil {
+		// e.g. a literal that does not fit in 64 bits
+		return 0, err
+	}
+	return val.(int64), nil
 }
